@@ -8,7 +8,7 @@ set_option linter.unusedSimpArgs false
 
 namespace LibfiberVerif.MultiChan
 set_option maxHeartbeats 4000000 in
-theorem inv_step_wScratch (s s' : St) (f g x : Nat) (hi : Inv s)
+theorem inv_step_wScratch (s s' : St) (f g x : Nat) (htwo : s.two = false) (hi : Inv s)
     (hs : step s (.wScratch f g x) = some s') : Inv s' := by
   have hI := hi
   obtain ⟨h1, h2, h3, h4, h5, h6, h7, h8, h9, h10, h11, h12, h13, h14, h15, h16, h17, h18, h19, h20,
@@ -42,12 +42,13 @@ theorem inv_step_wScratch (s s' : St) (f g x : Nat) (hi : Inv s)
   · simp at hs
 
 set_option maxHeartbeats 4000000 in
-theorem inv_step_wWaiters (s s' : St) (f w : Nat) (hi : Inv s)
+theorem inv_step_wWaiters (s s' : St) (f w : Nat) (htwo : s.two = false) (hi : Inv s)
     (hs : step s (.wWaiters f w) = some s') : Inv s' := by
   have hI := hi
   obtain ⟨h1, h2, h3, h4, h5, h6, h7, h8, h9, h10, h11, h12, h13, h14, h15, h16, h17, h18, h19, h20,
     h21, h22, h23, h24, h25, h26, h27, h28, h29, h30, h31, h32⟩ := hi
-  simp only [step] at hs
+  simp only [step, htwo] at hs
+  simp only [Bool.false_eq_true, false_implies, and_true, false_and, not_false_eq_true] at hs
   split at hs
   · -- internal_wait: link self in front
     rename_i o hpc
